@@ -211,7 +211,7 @@ def check_instance(x, where):
         return {"target": f"{name}.from_json", "inputs": where, "expected": "identical to_json()", "observed": _first_diff(j, j2)}
     d = payload_diff(x, y)
     if d:
-        return {"target": f"{name}.from_json", "inputs": where, "expected": "identical image/attachment bytes", "observed": d}
+        return {"target": f"{name}.from_json", "inputs": where, "expected": "nested objects of the same types with identical image/attachment bytes", "observed": d}
     for meth in ("get_full_text",):
         if hasattr(x, meth):
             try:
